@@ -24,6 +24,35 @@ class NpShim:
     def __getattr__(self, name: str):
         return getattr(_np, name)
 
+    # -- floating-point error state: kept in step between real NumPy and the proxies' model of it ---------------
+    def seterr(self, all=None, divide=None, over=None, under=None, invalid=None):
+        from . import values as _sv
+        self._count('seterr')
+        old = dict(_sv.ERRSTATE)
+        for k, v in (('divide', divide), ('over', over), ('under', under), ('invalid', invalid)):
+            v = v if v is not None else all
+            if v is not None:
+                _sv.ERRSTATE[k] = v if v in ('ignore', 'raise') else 'warn'
+        _np.seterr(all=all, divide=divide, over=over, under=under, invalid=invalid)
+        return old
+
+    def geterr(self):
+        from . import values as _sv
+        return dict(_sv.ERRSTATE)
+
+    def errstate(self, **kw):
+        import contextlib
+        shim = self
+
+        @contextlib.contextmanager
+        def cm():
+            old = shim.seterr(**kw)
+            try:
+                yield
+            finally:
+                shim.seterr(**old)
+        return cm()
+
     # -- constructors -----------------------------------------------------
     def array(self, obj, *a, **k):
         if isinstance(obj, SArr):
